@@ -7,6 +7,7 @@ import (
 
 	"go.miragespace.co/specter/spec/chord"
 	"go.miragespace.co/specter/util"
+	"go.miragespace.co/specter/util/verifhook"
 
 	"github.com/zeebo/xxh3"
 	"go.uber.org/zap"
@@ -166,6 +167,7 @@ func (n *LocalNode) periodicStabilize() {
 			n.logger.Debug("Stopping Stabilize task")
 			return
 		default:
+			verifhook.At("task:stabilize", n.ID())
 			if err := n.stabilize(); err != nil {
 				n.logger.Error("Stabilize task", zap.Error(err))
 			}
@@ -183,6 +185,7 @@ func (n *LocalNode) periodicPredecessorCheck() {
 			n.logger.Debug("Stopping predecessor checking task")
 			return
 		default:
+			verifhook.At("task:predcheck", n.ID())
 			n.checkPredecessor()
 			time.Sleep(util.RandomTimeRange(n.PredecessorCheckInterval))
 		}
@@ -199,6 +202,7 @@ func (n *LocalNode) periodicFixFingers() {
 			n.logger.Debug("Stopping FixFinger task")
 			return
 		default:
+			verifhook.At("task:fixfinger", n.ID())
 			n.fixFinger()
 			time.Sleep(util.RandomTimeRange(n.FixFingerInterval))
 		}
@@ -208,6 +212,7 @@ func (n *LocalNode) periodicFixFingers() {
 func (n *LocalNode) startTasks() {
 	// run once
 	n.stabilize()
+	verifhook.At("start:stabilized", n.ID())
 	n.fixFinger()
 	n.stopWg.Add(3)
 	// then run periodically
